@@ -37,6 +37,14 @@ def run(ctx):
                                    jobserver=1.0, with_history=0.2, salt=2)
     items += sched.small_scenarios(ctx, "C06", 400 if quick else 8000, rng, size=(2, 6), cap=100 if quick else 1000, feat=feat,
                                    jobserver=1.0, faults=True, with_history=0.2, salt=3)
+    # load-limited capacity (-l): the room left under the load limit fluctuates from call to call, down to nothing while
+    # commands run; many phony statements so that ready work items are not all commands
+    lim = sched.small_scenarios(ctx, "C06", 500 if quick else 10000, rng, size=(2, 7), cap=80 if quick else 800,
+                                feat=dict(pools=0.4, chain=0.6, order_only=0.4, phony=0.4, restat=0.15, dyndep=0.1), with_history=0.2, salt=4)
+    for scn, info in lim:
+        ex = scn["steps"][info["explore_step"]]
+        ex["load_caps"] = [rng.choice((0, 0, 1, 1, 2, 3, 8)) for _ in range(rng.randint(1, 7))]
+    items += lim
     items += sched.special_c06(ctx, rng, 300 if quick else 5000)
     sched.run_explore(ctx, "C06", items)
     try:
@@ -45,7 +53,7 @@ def run(ctx):
     except ImportError:
         ctx.count("e2e_part_skipped")
     ctx.rule = ("graphs of 2..6 statements with pools/console/-j/jobserver(0..4 tokens + thief script)/fault plans: all completion "
-                "orders up to the cap; plus StartEdge-failure and interrupt families; distinct_nontrivial = distinct (scenario, "
+                "orders up to the cap; plus load-limited capacity scripts, StartEdge-failure and interrupt families; distinct_nontrivial = distinct (scenario, "
                 "START/FINISH interleaving) with >= 2 commands")
 
 
